@@ -16,6 +16,7 @@ import (
 
 const (
 	tNew = iota
+	tWantAtomic
 	tWantLock
 	tRunning
 	tDone
@@ -60,6 +61,7 @@ type threadState struct {
 	locks   map[*Value]*lockState
 	cells   map[*Value]*cellMeta
 	maps    map[*Map]*cellMeta
+	atomics map[*Value][]int
 	step    int
 }
 
@@ -95,7 +97,7 @@ func (ex *Exec) runThreads(caller *frame, fs []Value) {
 	}
 	ex.flush()
 	ts := &threadState{yield: make(chan yieldMsg), kill: make(chan struct{}), locks: map[*Value]*lockState{},
-		cells: map[*Value]*cellMeta{}, maps: map[*Map]*cellMeta{}}
+		cells: map[*Value]*cellMeta{}, maps: map[*Map]*cellMeta{}, atomics: map[*Value][]int{}}
 	for i, f := range fs {
 		t := &thread{id: i, fn: f, resume: make(chan struct{}), vc: make([]int, len(fs))}
 		t.vc[i] = 1
@@ -121,7 +123,7 @@ func (ex *Exec) runThreads(caller *frame, fs []Value) {
 		alive := 0
 		for _, t := range ts.threads {
 			switch t.state {
-			case tNew:
+			case tNew, tWantAtomic:
 				enabled = append(enabled, t)
 				alive++
 			case tWantLock:
@@ -146,6 +148,9 @@ func (ex *Exec) runThreads(caller *frame, fs []Value) {
 		if t.state == tNew {
 			t.state = tRunning
 			go ts.runThread(ex, caller, t)
+		} else if t.state == tWantAtomic {
+			t.state = tRunning
+			t.resume <- struct{}{}
 		} else {
 			l := ts.lockOf(t.want)
 			if t.wantRead {
@@ -313,4 +318,24 @@ func (ex *Exec) stamp() int64 {
 		return 0
 	}
 	return int64(ex.threads.step)
+}
+
+// atomicPoint makes an atomic operation on cell p a schedule point and
+// synchronises the thread with every earlier atomic operation on p.
+func (ts *threadState) atomicPoint(ex *Exec, p *Value) {
+	t := ts.cur
+	if t == nil {
+		return
+	}
+	ex.flush()
+	t.state = tWantAtomic
+	ts.park(t)
+	vc := ts.atomics[p]
+	if vc == nil {
+		vc = make([]int, len(ts.threads))
+		ts.atomics[p] = vc
+	}
+	joinVC(t.vc, vc)
+	copy(vc, t.vc)
+	t.vc[t.id]++
 }
